@@ -104,6 +104,6 @@ def main():
         fh.write("\n")
     print("claimed:", claimed)
 
-ENABLED = {"C01", "C02", "C06", "C11", "C14", "C15", "C17"}
+ENABLED = set(ALL)
 if __name__ == "__main__":
     main()
